@@ -40,6 +40,11 @@ def mk_field(v, name, idx=None):
         f = v[1][3]
         if name in f:
             return f[name]
+    # `(branch(Ok(x)) as Continue).0` is x (the `?` applied to a value built on this path, e.g. by a spliced helper)
+    if v[0] == 'downcast' and v[2] == 'Continue' and name == '0' and v[1][0] == 'call' and v[1][1].endswith('as std::ops::Try>::branch') and v[1][2]:
+        a = v[1][2][0]
+        if a[0] == 'agg' and a[1] in ('std::result::Result', 'std::option::Option') and a[2] in ('Ok', 'Some') and '0' in a[3]:
+            return a[3]['0']
     return ('field', v, name)
 
 
